@@ -2771,8 +2771,20 @@ func (p bpath) holds(cond string) bool {
 	for _, cj := range splitTop(canonText(cond, false), "&&") {
 		found := false
 		for _, e := range p {
-			if e.Kind == "+" && e.Text == cj {
+			if e.Kind != "+" {
+				continue
+			}
+			if e.Text == cj {
 				found = true
+				continue
+			}
+			// an assumed conjunction (a condition kept in a boolean local) assumes each of its conjuncts
+			if strings.Contains(e.Text, "&&") {
+				for _, part := range splitTop(e.Text, "&&") {
+					if part == cj {
+						found = true
+					}
+				}
 			}
 		}
 		if !found {
